@@ -158,9 +158,10 @@ func runC17(rc *RunCtx) *simkit.Violation {
 	if yields {
 		cacheBufs = t.Range(1, 2)
 	}
+	verify := t.Bool(1, 2) // hash verification of streamed reads is an option of the mount (off by default)
 	mt, v := doOp(prop, w, mc, "mount", func() (interface{}, error) {
 		b := core.NewBundle(core.Repo("r1"), core.BundleID(mb.ID), core.ContextStores(d.Stores(mc)), core.ConsumableStore(localStore(disk)), core.BundleDescriptor(bd), core.Logger(nopLog), core.ConcurrentFileDownloads(t.Pick(1, 3, 10)))
-		ro, err := dfuse.NewReadOnlyFS(b, dfuse.Streaming(streamed), dfuse.Logger(nopLog), dfuse.CacheSize(cacheBufs*int(leaf)), dfuse.Prefetch(t.Pick(0, 1, 2)), dfuse.VerifyHash(true))
+		ro, err := dfuse.NewReadOnlyFS(b, dfuse.Streaming(streamed), dfuse.Logger(nopLog), dfuse.CacheSize(cacheBufs*int(leaf)), dfuse.Prefetch(t.Pick(0, 1, 2)), dfuse.VerifyHash(verify))
 		if err != nil {
 			return nil, err
 		}
@@ -175,9 +176,9 @@ func runC17(rc *RunCtx) *simkit.Violation {
 	fs = mt.Result.(fuseutil.FileSystem)
 	tm := newTreeModel(tree)
 	w.Note("bundle of %d files, leaf %d, streamed=%v", len(tree), leaf, streamed)
-	faulty := streamed && t.Bool(1, 4)
+	faulty := streamed && t.Bool(1, 3)
 	if faulty {
-		w.Faults = &simkit.FaultCfg{Err: 120, Budget: 2, Eligible: func(c *simkit.Call) bool { return c.Client == mc && c.Op == simkit.OpGet }}
+		w.Faults = &simkit.FaultCfg{Err: 80, Reset: 250, Budget: 3, Eligible: func(c *simkit.Call) bool { return c.Client == mc && c.Op == simkit.OpGet }}
 	}
 	nCallers, progMax := t.Range(1, 4), 10
 	if yields {
